@@ -32,6 +32,7 @@ def run_regressions(ctx, module):
         with open(path) as fh:
             body = json.load(fh)
         case = body["case"] if "case" in body and "property" in body else body
+        ctx.journal(case)
         problems = module.replay(ctx, case) or []
         ctx.check(case, problems)
         ctx.count("regression_cases")
@@ -155,6 +156,8 @@ def main(argv):
         budget = float(os.environ.get("VERIF_BUDGET_S", "0") or 0) or None
         ctx = Ctx(prop, tier, seed, shard=shard, nshards=nshards, known=known, budget_s=budget)
         try:
+            if os.environ.get("VF_RUN_REGRESSIONS", "1") == "1":
+                run_regressions(ctx, module)
             module.run(ctx)
         finally:
             common.cleanup_work_dir()
@@ -167,43 +170,64 @@ def main(argv):
     budget = float(os.environ.get("VERIF_BUDGET_S", "0") or 0) or None
     ctx = Ctx(prop, tier, seed, shard=0, nshards=nshards, known=known, budget_s=budget)
     try:
-        run_regressions(ctx, module)
-        if nshards == 1:
-            module.run(ctx)
-        else:
-            # warm the numba cache once before forking the shards
-            if hasattr(module, "warm"):
-                module.warm()
-            outdir = os.path.join(common.VERIF, ".work", "shards-%s-%d" % (prop, os.getpid()))
-            os.makedirs(outdir, exist_ok=True)
-            procs = []
-            for s in range(nshards):
-                out = os.path.join(outdir, "shard%d.json" % s)
-                log = open(os.path.join(outdir, "shard%d.log" % s), "w")
-                p = subprocess.Popen(
-                    [sys.executable, "-m", "vf.run", prop, tier, "--shard", str(s), str(nshards), "--shard-out", out],
-                    cwd=common.VERIF,
-                    stdout=log,
-                    stderr=subprocess.STDOUT,
-                )
-                procs.append((s, p, out, log))
-            failed = []
-            for s, p, out, log in procs:
-                rc = p.wait()
-                log.close()
-                if rc != 0 or not os.path.exists(out):
-                    failed.append(s)
-                    continue
-                with open(out) as fh:
-                    merge_partial(ctx, json.load(fh))
-            if failed:
-                for s in failed:
-                    with open(os.path.join(outdir, "shard%d.log" % s)) as fh:
-                        sys.stderr.write(fh.read()[-4000:])
-                raise HarnessError("shards failed: %s" % failed)
-            import shutil
+        # Workers always run in child processes: a hard crash of jitted code (segfault)
+        # must not take the reporter down; the journalled case becomes the replay.
+        if nshards > 1 and hasattr(module, "warm"):
+            module.warm()  # warm the numba cache once before forking the shards
+        outdir = os.path.join(common.VERIF, ".work", "shards-%s-%d" % (prop, os.getpid()))
+        os.makedirs(outdir, exist_ok=True)
+        procs = []
+        for s in range(nshards):
+            out = os.path.join(outdir, "shard%d.json" % s)
+            journal = os.path.join(outdir, "journal%d.json" % s)
+            log = open(os.path.join(outdir, "shard%d.log" % s), "w")
+            env = dict(os.environ)
+            env["VF_JOURNAL"] = journal
+            env["VF_RUN_REGRESSIONS"] = "1" if s == 0 else "0"
+            p = subprocess.Popen(
+                [sys.executable, "-m", "vf.run", prop, tier, "--shard", str(s), str(nshards), "--shard-out", out],
+                cwd=common.VERIF,
+                stdout=log,
+                stderr=subprocess.STDOUT,
+                env=env,
+            )
+            procs.append((s, p, out, log, journal))
+        failed = []
+        for s, p, out, log, journal in procs:
+            rc = p.wait()
+            log.close()
+            if rc < 0 or rc in (134, 139):
+                case = None
+                if os.path.exists(journal):
+                    try:
+                        with open(journal) as fh:
+                            case = json.load(fh)
+                    except Exception:
+                        case = None
+                sig = "crash:worker_killed_by_signal_%d" % (-rc if rc < 0 else rc - 128)
+                ctx.violation(Problem(sig, "the worker process died (signal) while executing the journalled case: code under test crashed the interpreter"), case or {"kind": "unknown"})
+                continue
+            if rc != 0 or not os.path.exists(out):
+                failed.append(s)
+                continue
+            with open(out) as fh:
+                merge_partial(ctx, json.load(fh))
+        if failed:
+            for s in failed:
+                with open(os.path.join(outdir, "shard%d.log" % s)) as fh:
+                    sys.stderr.write(fh.read()[-6000:])
+            raise HarnessError("workers failed: %s" % failed)
+        for s in range(nshards):
+            try:
+                with open(os.path.join(outdir, "shard%d.log" % s)) as fh:
+                    txt = fh.read()
+                if txt.strip() and os.environ.get("VF_VERBOSE"):
+                    sys.stderr.write(txt[-3000:])
+            except OSError:
+                pass
+        import shutil
 
-            shutil.rmtree(outdir, ignore_errors=True)
+        shutil.rmtree(outdir, ignore_errors=True)
     except HarnessError as e:
         sys.stderr.write("HARNESS ERROR: %s\n" % e)
         return 2
